@@ -20,6 +20,10 @@ RULE = ('generated universes (see C04) with chains/DAGs of 1-3 registries; '
         'equal-but-distinct pair; distinct by SHA-1')
 
 
+# thorough tier: coverage-guided campaigns on top of the random ones
+ATHERIS = [{'impl': 'py', 'n': 30000, 'name': 'py-atheris'},
+           {'impl': 'c', 'n': 30000, 'name': 'c-atheris'}]
+
 def configs(tier, seed):
     n = 1500 if tier == 'quick' else 20000
     return [{'name': impl + '-subs', 'impl': impl, 'mode': 'hyp', 'n': n}
